@@ -472,7 +472,12 @@ fn cmd_sched(a: &Value) -> Value {
                 uni.sort();
                 reference = sched::reference(&s, &uni, faulty_ref);
             }
-            let evs = trace_events(&s, &o.record);
+            let mut evs = trace_events(&s, &o.record);
+            // what the caller of execute() got back: the observation at the public call's return
+            if s.fault.is_none() && !matches!(&o.result, Err((k, _)) if *k == usize::MAX) {
+                evs.push(json!({"l": "M_Ret", "t": "main", "ok": o.result.is_ok(),
+                    "err_tx": o.result.as_ref().err().map_or(-1, |e| e.0 as i64), "outcomes": o.outcomes.len()}));
+            }
             let found = if sc["oracle"].as_str() == Some("policy") {
                 if policy_other.is_none() {
                     policy_other = Some(run_plain(&s, 1, true, 0, false));
